@@ -19,6 +19,7 @@ CHECKS['C20'] = dict(
 )
 
 CHECKS['C11'] = dict(
+    quick_is_thorough=True,
     level='model_checking',
     steps=[dict(mode='asan', bin='c11_utf')],
     rule='exhaustive enumeration of code-unit strings: ALL UTF-8 byte strings of length 0..3 (16 843 009), all strings of length 4..5 (quick) / 4..6 (thorough) over 16 boundary bytes and 7..8 over 6 bytes; '
@@ -33,6 +34,7 @@ CHECKS['C11'] = dict(
 )
 
 CHECKS['C12'] = dict(
+    quick_is_thorough=True,
     level='exploration',
     steps=[dict(mode='asan', bin='c12_nchars')],
     rule='all NUL-terminated strings of true length 0..3 over a 7-item alphabet (1-,2-,3-,4-byte characters, two kinds of lone lead unit, space) in UTF-8/16/32, terminator = last readable unit before a guard page, '
@@ -76,6 +78,7 @@ CHECKS['C07'] = dict(
 )
 
 CHECKS['C18'] = dict(
+    quick_is_thorough=True,
     level='model_checking',
     steps=[dict(mode='asan', bin='c18_features')],
     rule='fonts: all shipped + synthesised Feat/Sill families whose bit widths hit every residue around a 32-bit word boundary ((1,31,1) (16,16,1) (17,16) (15,15,2) (16,0,16,2), zero-settings features, 33x1, 9x8, 40 mixed, Feat v1, 129/130 zero-settings features, language entries naming feature ids the Feat table lacks, 1- to 4-character ids, ids spread over the whole unsigned 32-bit range in four low/high mixes) + S-full variants. '
@@ -115,6 +118,7 @@ for _p, _what in (('C02', 'oracle: ASan/UBSan silence, rule-loop counter hook <=
     )
 
 CHECKS['C19'] = dict(
+    quick_is_thorough=True,
     level='model_checking',
     steps=[dict(mode='asan', bin='c19_justify')],
     rule='fonts {Padauk, Scheherazade, charis, Awami_test, Annapurna, S-full (justification levels), S-full RTL, S-full and S-full RTL with the line-end flag (temporary line-end slots)} x 3 (thorough 6) corpus texts of 5-9 (thorough 5-12) characters x dir flags 0..7 x {font NULL, ppm 24}; '
@@ -128,6 +132,7 @@ CHECKS['C19'] = dict(
 )
 
 CHECKS['C15'] = dict(
+    quick_is_thorough=True,
     level='exploration',
     steps=[dict(mode='asan', bin='c15_scale')],
     rule='(every shipped font x first 60 (quick) / all (thorough) corpus lines and words) + (S-full, S-full RTL, S-full v3, S-min x ALL strings of length 0..3 (thorough 0..4) over {a,b,c,d,e,space,acute,grave}) x dir {0,1,3} x ppm {0.5,1,7.3,12,48.5,upem,4096}: '
@@ -140,6 +145,7 @@ CHECKS['C15'] = dict(
 )
 
 CHECKS['C10'] = dict(
+    quick_is_thorough=True,
     level='exploration',
     steps=[dict(mode='asan', bin='c10_options')],
     rule='16 configurations (faceOptions 0..7 x {table callbacks, gr_make_file_face}) per font; fonts: all shipped + S-full variants (compressed, no sub-boxes, no glyf/loca, more attribute glyphs than outlines, a glyph storing a value for every attribute number and one storing only the last, a cmap whose first format 4 segment starts at U+0000 and whose closing segment FFFC..FFFF carries real mappings, Silf v3/v4, RTL), S-min, 40-feature font; '
@@ -152,6 +158,7 @@ CHECKS['C10'] = dict(
 )
 
 CHECKS['C16'] = dict(
+    quick_is_thorough=True,
     level='model_checking',
     steps=[dict(mode='asan', bin='c16_borrow')],
     rule='explicit-state BFS over API histories on a memory face whose get_table returns a fresh exact-size heap copy per call and whose release_table frees it (outstanding set tracked; release of a non-outstanding pointer recorded): '
